@@ -15,7 +15,7 @@ ID = "C05"
 LEAN_MODULES = ["FaxVerif.C05.Theorems"]
 LEAN_SOURCES = ["FaxVerif/C05", "FaxVerif/Cpp"]
 DRIVER = cgroup.DRIVER
-SETUP_MODULES = ["FaxVerif.Cpp.Json", "FaxVerif.Gen.Render", "FaxVerif.C03.Spec", "FaxVerif.Cpp.Check"]  # what the driver imports
+SETUP_MODULES = cgroup.DRIVER_IMPORTS  # what the driver imports
 THEOREMS = [
     "FaxVerif.C05.job_is_per_event",
     "FaxVerif.C05.split",
